@@ -10,6 +10,40 @@ RULE = ("logging programs generated from VERIF_SEED (nesting depth <= 4..8, all 
 LEVEL_TEXT = 'Coq theorems about the position counter (Model/Core.v) + correspondence of full per-destination message sequences with the model + the placement statement (required keys, uniqueness of (task_uuid, task_level), positions exactly 1..n, start at 1, end at n, emission order = level order) evaluated on what an always-accepting destination received while other destinations fail.'
 LEVEL_NOTE = "Trusted: Coq kernel; hand-written model Model/Core.v + Model/Prog.v tied to /repo by per-run correspondence on generated logging programs (real control flow, real threads for hand-offs); Python harness. Partial: the run-wide uniqueness/contiguity invariant over arbitrary operation sequences is being proved (DESIGN section 8); domain excludes finish() while the action is current (known finding F6) and failing field serializers (as the property's quantifier does)."
 
+# F6 (known finding): finish() called while the action is still the current one, with a destination
+# failing on that end message: the failure report is placed inside the action, after its end message.
+F6_CASE = {"classes": [], "registry": [],
+           "pre": [["add", [[1, ["never"], {"id": 90, "cls": 2, "text": 100, "sr": False}],
+                            [2, ["on_end"], {"id": 91, "cls": 9, "text": 101, "sr": False}]]]],
+           "prog": [["act", 1, "with", False, 10, [[19, {"i": 1}]], None, [[19, {"i": 1}]],
+                     [["act", 2, "ctx", False, 11, [[19, {"i": 2}]], None, [[19, {"i": 2}]],
+                       [["finish_again", 2, None]], "start_action"]], "start_action"]]}
+
+
+def _finishes_enclosing(stmts, enclosing=()):
+    for st in stmts:
+        if st[0] == "finish_again" and st[1] in enclosing:
+            return True
+        if st[0] == "act" and _finishes_enclosing(st[8], enclosing + (st[1],)):
+            return True
+        if st[0] in ("try",) and _finishes_enclosing(st[1], enclosing):
+            return True
+        if st[0] == "reenter" and _finishes_enclosing(st[2], enclosing + (st[1],)):
+            return True
+        if st[0] == "handoff" and _finishes_enclosing(st[5], (st[3],)):
+            return True
+    return False
+
+
+def known(case, obs, failure):
+    fails_on_end = any(d[1][0] in ("on_end", "always") for o in case["pre"] if o[0] == "add" for d in o[1])
+    if _finishes_enclosing(case["prog"]) and fails_on_end and isinstance(failure, str) and "end message" in failure:
+        return "F6-finish-while-current"
+    return None
+
+
 FAMILIES = [
     progs.program_family("programs", oracles.oracle_c02, 120, 2500, deep=dict(depth=7, width=5), **dict(fault=0.6, registry_rate=0.6, p_fault_ser=0.0, depth=4)),
 ]
+FAMILIES[0].corpus = [F6_CASE]
+FAMILIES[0].known = known
